@@ -33,6 +33,7 @@ type Interp struct {
 	runtimeErrorString types.Type
 	utf8Decode         *ssa.Function
 	trail              []trailEntry
+	cached             map[string]value // verifCached: fixtures built once per worker
 	path               *pathState
 	externCache        map[*ssa.Function]externFn
 	Trace              bool
@@ -97,7 +98,7 @@ func (in *Interp) globalAddr(g *ssa.Global) *value {
 	cell := new(value)
 	pkg := g.Pkg
 	if pkg != nil && !in.initDone[pkg] && !in.prog.initAllowed(pkg) && !zeroOKPackages[pkg.Pkg.Path()] {
-		*cell = poison{"global " + g.String() + " of uninitialised package (read in " + in.stackTail(3) + ")"}
+		*cell = poison{"global " + g.String() + " of uninitialised package (read in " + in.stackTail(7) + ")"}
 	} else {
 		*cell = in.zero(deref(g.Type()))
 	}
